@@ -57,6 +57,7 @@ func C11(c *vf.Ctx) {
 			maxRPC: 2, maxStims: 5, invs: "TypeOK StreamInvs OneWrite MetaScoped"},
 	}
 	runSysFamily(c, fam, nT, nR)
+	metaCtx(c)
 	MetaCodec(c)
 	c.Cov["rule"] = "connection part: up to four consecutive/concurrent calls with metadata in {none, M1, M2}, any of them abandoned (soft cancel, hard cancel) between its metadata packet and its invoke (every write parked individually; armed point between stream creation and the first write); the handler's view of drpcmetadata.Get is compared per stream with what was attached to that call, and every run is validated against SystemTrace.tla (whose observation includes the per-stream metadata). Codec part: see MetaCodec (spec/MetaCodec.tla)."
 }
